@@ -14,7 +14,7 @@ from vlib import core
 
 THEOREMS = ["C18_options", "C18_unknown_names_error", "C18_parse", "C18_variable", "C18_ws_insensitive", "C18_outer_ws",
             "C18_cache_transparent", "C18_cache_transparent_keys", "C18_cache_schedule_independent", "C18_spec", "C18_spec_var",
-            "C18_old_refuted"]
+            "C18_old_refuted", "C18_accessor_current_locale"]
 PROPS = "theories/Props/C18.v"
 REGISTRY = {
     "level": "proof",
@@ -33,7 +33,7 @@ REGISTRY = {
             "correspondence runs); ICU4X 1.5 compiled data as formatting oracle; std::sync::RwLock for the atomicity of with_mut; "
             "Python generator; Rust harness h_fmt. No axioms.",
     "engine": "coq",
-    "packages": [("h_fmt",)],
+    "packages": [("h_fmt",), ("h_ctx",)],
 }
 PRE = ("From Coq Require Import List NArith Bool.\nImport ListNotations.\n"
        "From LI Require Import Base.StrOps Parser.Formatter Parser.FormatterCheck.\nOpen Scope N_scope.\n")
@@ -697,6 +697,9 @@ def run(ctx):
                           "correspondence Parser/Formatter.v (parse_variable / from_name_and_args) vs leptos_i18n_parser",
                 "first_disagreeing_input": (sorted(disagree, key=size_key) or [None])[0], "disagreements": len(disagree)},
                 no_input=True)
+    # t*_format! accessors follow the locale of their context over operation histories (shared machinery of C16)
+    from checks import acc_common
+    acc_evidence = acc_common.run_family(ctx, "format")
     hist = {}
     for m in meta:
         k = m["kind"]
@@ -739,7 +742,7 @@ def run(ctx):
         "parser_cases": len(meta), "runtime_comparisons": n_runtime,
         "disagreements": len(disagree), "spec_failures_on_impl": len(bad_spec), "skipped_unmodelled": len(skipped),
         "findings_by_class": {k: len(v) for k, v in groups.items()},
-        "input_distribution": hist, "audit_problems": problems, **rt_stats, **ops_stats, **doc_stats,
+        "input_distribution": hist, "audit_problems": problems, "accessor_locale": acc_evidence, **rt_stats, **ops_stats, **doc_stats,
     }, assumptions=[
         "ICU4X formatting output is an oracle (never modelled): the library's output is compared with direct ICU4X calls",
         "thread schedules of the formatter cache are sampled (8 threads released by a barrier), not enumerated; atomicity of "
@@ -752,6 +755,9 @@ def replay(ctx, path):
     isolate.enter(ctx)
     """re-run the stored failing input on the implementation (and on the model where it is a parser-level input)"""
     obj = json.load(open(path))
+    from checks import acc_common
+    if acc_common.is_mine(obj):
+        return acc_common.replay(ctx, path)
     rec = obj.get("failing_input") or obj.get("first_disagreeing_input") or {}
     print(json.dumps(obj, indent=1, ensure_ascii=False)[:4000])
     bindir = core.cargo_build("h_fmt")
